@@ -25,7 +25,7 @@ KEYS = {
     "Sysctl": ("words", ["a=1", "b=2 c=3"]),
     "PodmanArgs": ("words", ["--foo", "--bar \"b z\"", "-x"]),
     "Environment": ("kv", ["A=1", "B=2", "A=3 C=4", "\"D=x y\"", "A=u=1", "A=v=2", "E=", "E==x"]),
-    "Label": ("kv", ["l=1", "m=2", "l=3", "l=a=b", "l=c=d"]),
+    "Label": ("kv", ["l=1", "m=2", "l=3", "l=a=b", "l=c=d", "io.containers.autoupdate=local", "io.containers.autoupdate=image"]),
     "Exec": ("single", ["sleep 1", "echo \"a b\""]),
 }
 
@@ -49,7 +49,7 @@ for _k, _v in OTHER.items():
 COMPANIONS = {
     "UserNS": "RemapUsers=keep-id\n", "pod:UserNS": "RemapUsers=auto\nRemapUidSize=4096\n", "kube:UserNS": "RemapUsers=auto\n",
     "User": "Group=7\n", "volume:Device": "Type=ext4\nOptions=rw\n", "volume:Driver": "Image=quay.io/x/y\n",
-    "network:Subnet": "Gateway=10.0.0.1\n", "ReadOnly": "VolatileTmp=yes\n", "Notify": "",
+    "network:Subnet": "Gateway=10.0.0.1\n", "ReadOnly": "VolatileTmp=yes\n", "Notify": "", "Label": "AutoUpdate=registry\n",
 }
 KEYS["UserNS"] = ("single", ["host", "keep-id"])
 KEYS["pod:UserNS"] = ("single", ["host", "keep-id"])
@@ -237,6 +237,20 @@ def command_level(ctx):
         a, b = vlib.parse_convert(outs[2 * i])[0], vlib.parse_convert(outs[2 * i + 1])[0]
         ea = canon_exec(vlib.entries(a, "Service", "ExecStart")[0]) if a.get("ok") else ("ERR", a.get("err"))
         eb = canon_exec(vlib.entries(b, "Service", "ExecStart")[0]) if b.get("ok") else ("ERR", b.get("err"))
+        # name=value keys, directly: the command carries "<option> name=value" for the LAST value of every name of the effective history
+        # (another key that happens to produce the same option -- AutoUpdate= and its label -- does not replace the user's own)
+        if KEYS[key][0] == "kv" and a.get("ok") and isinstance(ea, list):
+            opt = {"Environment": "--env", "Label": "--label", "Annotation": "--annotation", "Options": "--opt"}[unit_of(key)[3]]
+            d = {}
+            for ws in vlib.sd_split_many([v.encode() for v in effective_history("kv", hist)]) if effective_history("kv", hist) else []:
+                for w in ws or []:
+                    if "=" in w:
+                        d[w.partition("=")[0]] = w
+            missing = [w for w in d.values() if not any(ea[j] == opt and ea[j + 1] == w for j in range(len(ea) - 1))]
+            if missing:
+                ctx.failures.append({"op": "convert", "key": key, "history": hist, "case_hex": cases[2 * i], "ref_hex": cases[2 * i + 1],
+                                     "what": "history %s of %s: the command lacks %s %s (the last value of that name): %s" % (hist, key, opt, missing, ea), "class": None})
+                continue
         if ea != eb:
             ctx.failures.append({"op": "convert", "key": key, "history": hist, "case_hex": cases[2 * i], "ref_hex": cases[2 * i + 1],
                                  "what": "history %s of %s gives %s but its effective value %s gives %s" % (hist, key, ea, effective_history(KEYS[key][0], hist), eb),
